@@ -188,7 +188,13 @@ def r4(run):
             run.ob("xsbin::serve|starts|%s" % k.split("::")[-3], False, sb.sp, "%s is not started by the binary's serve" % k, reason="module-not-started")
 
 
+def r5(run):
+    from . import C19 as c19
+    c19.r6(run)
+
+
 RULES = [
+    ("R-C17-5", "commands: every historical .define is re-registered in order during replay (latest valid definition restored; shared with R-C19-6)", r5),
     ("R-C17-1", "every registry of the handlers / generators / commands modules is keyed by (context_id, name)", r1),
     ("R-C17-2", "user code (handlers, generators, command calls) is started only after the replay phase; history is compacted, not executed", r2),
     ("R-C17-3", "handler compaction drops an entry only on a matching handler_id and restarts survivors in register-id order", r3),
